@@ -1,0 +1,44 @@
+//go:build verif
+
+package goja
+
+// Generator and async-function steps are regions entered from Go: enter()/enterNext() push a call
+// context and a marker try frame, and whoever called them pops both after step(). A panic that
+// passes through step() - an interrupt or a stack overflow in the generator body, or an exception that
+// the generator's own frames did not handle while return() was unwinding them - must not leave them
+// behind (C03, C15, C08).
+
+// While a generator runs it cannot be re-entered (validate() rejects the executing state), so nobody
+// re-records the heights it was entered at.
+//@ jspreserved generator.tryStackLen
+
+//@ func (*generator).step
+//@   props C03 C15
+//@   maypanic
+
+//@ func (*generator).storeLengths
+//@   props C03 C15
+//@   requires g != nil && g.vm != nil
+//@   ensures int(g.tryStackLen) == len(g.vm.tryStack) [recorded]
+//@   assigns g.tryStackLen, g.iterStackLen, g.refStackLen
+
+// Resuming a suspended activation puts its saved try frames back on top; what is below stays.
+//@ func (*vm).resume
+//@   props C03 C15
+//@   requires vm != nil && ctx != nil
+//@   loop 1 invariant len(vm.tryStack) == old(len(vm.tryStack)) [nothing-appended-yet]
+//@   loop 1 invariant forall m int :: 0 <= m && m < len(vm.tryStack) ==> vm.tryStack[m].catchPos == old(vm.tryStack[m].catchPos) [frames-below-kept]
+//@   ensures len(vm.tryStack) >= old(len(vm.tryStack)) [frames-appended]
+//@   ensures forall m int :: 0 <= m && m < old(len(vm.tryStack)) ==> vm.tryStack[m].catchPos == old(vm.tryStack[m].catchPos) [frames-below-kept]
+//@   assigns vm.prg, vm.stash, vm.privEnv, vm.newTarget, vm.result, vm.pc, vm.sb, vm.args, vm.sp, vm.stack, elems(vm.stack), vm.tryStack, elems(vm.tryStack), vm.iterStack, elems(vm.iterStack), vm.refStack, elems(vm.refStack), any(tryFrame.callStackLen), any(tryFrame.iterLen), any(tryFrame.refLen), any(tryFrame.sp)
+
+//@ func (*generator).enterNext
+//@   props C03 C15
+//@   requires g != nil && g.vm != nil
+//@   requires g != nil && g.vm != nil
+//@   ensures int(g.tryStackLen) == old(len(g.vm.tryStack))+1 && int(g.tryStackLen) <= len(g.vm.tryStack) && g.vm.tryStack[int(g.tryStackLen)-1].catchPos == tryPanicMarker [marker-pushed-and-recorded]
+
+//@ func (*generator).next
+//@   props C03 C15
+//@   requires g != nil && g.vm != nil
+//@   ensures_abrupt len(g.vm.tryStack) == old(len(g.vm.tryStack)) [frames-unwound-on-panic]
